@@ -284,7 +284,10 @@ class World:
             fh.write(f"def f({', '.join(names)}):\n"
                      f"    return _rec({cid}, {'klong' in names}, {'klong' if 'klong' in names else 'None'}, "
                      f"({''.join(n + ', ' for n in plain)}))\n")
-        self.klong(f'.py("{path}")')
+        if getattr(World, "_modn", 0) % 2:
+            self.klong(f'.pyf("{path}";"f")')
+        else:
+            self.klong(f'.py("{path}")')
         from klongpy.core import KGSym
         e = self.klong._context[KGSym("f")]
         getattr(e, "a", e).fn.__globals__["_rec"] = self._rec        # stored as a bare KGLambda
@@ -296,8 +299,29 @@ class World:
 
         def kerr():
             raise KeyError("boom")
+
+        def rk1(x):
+            self.rlog.extend([x])
+            return x
+
+        def rk2(x, y):
+            self.rlog.extend([x, y])
+            return x
+
+        def rk3(x, y, z):
+            self.rlog.extend([x, y, z])
+            return x
         self.klong["r"] = r
         self.klong["kerr"] = kerr
+        self.klong["rk1"], self.klong["rk2"], self.klong["rk3"] = rk1, rk2, rk3
+        self.klong["idf"] = lambda x: x
+
+    def thin_recorder(self, arity, body):
+        """the named callable a thin-wrapper body calls: records [body, args...], returns body"""
+        ps = list("xyz"[:arity])
+        d = {"_rl": self.rlog}
+        exec(f"def _t({', '.join(ps)}):\n    _rl.extend([{', '.join([str(body)] + ps)}])\n    return {body}\n", d)
+        self.klong[f"t{body}"] = d["_t"]
 
     def show_log(self, it, start):
         return ";".join(f"{cid}/{1 if k else 0}/{'.'.join(str(it.tok(a)) for a in args)}"
@@ -312,7 +336,7 @@ def klit(u, i):
 
 FORMS = {0: ["direct", "at"], 1: ["direct", "each", "at"], 2: ["direct", "proj", "over", "at"],
          3: ["direct", "proj", "at"]}
-CONTEXTS = ["top", "nested", "ref", "globaly"]
+CONTEXTS = ["top", "nested", "ref", "globaly", "asarg"]      # asarg: the callable is PASSED to a Klong function and applied through its parameter x
 
 
 def _pick(rng, pool):
@@ -368,6 +392,11 @@ def gen_pycall(rng, sig, form, where):
                 mask[h] = False
                 mask[j] = True
                 case["args"][j] = rng.choice(LISTVAL_IDX)
+    if where == "asarg":
+        if (form in ("direct", "proj") and ar > 2) or (form == "proj" and ar != 2):
+            case["where"] = where = "top"           # x holds the callable: only y, z are left for arguments
+        elif form == "proj":
+            case["mask"] = [True, False]
     case["frame"] = [rng.choice([901, 902, 903, 17, 0]) for _ in range(3)] if where in ("nested", "ref") else []
     if case["frame"] and rng.random() < 0.5:
         # the enclosing function's x,y,z are universe values (empties included), not just integers
@@ -449,6 +478,15 @@ def run_pycall(ctx, drv, case):
                 rest = ";".join(t for t, m in zip(texts, mask) if not m)
                 body = f"g::f({fixed});g({rest})"
         prog = body if not frame else "{x;y;z;" + body + "}(" + ";".join(frame_txt) + ")"
+        if where == "asarg":
+            if form in ("each", "over", "at") and not case.get("atom"):
+                prog = "{x%sy}(f;%s)" % ({"each": "'", "over": "/", "at": "@"}[form], ltxt)
+            elif form == "at":
+                prog = "{x@y}(f;%s)" % texts[0]
+            elif form == "direct":
+                prog = "{x(%s)}(%s)" % (";".join("yz"[:ar]), ";".join(["f"] + texts))
+            else:
+                prog = "{[g];g::x(y;);g(z)}(f;%s)" % ";".join(texts)
     except Exception as e:  # evaluating a literal / storing an argument failed
         ctx.oracle_fail(f"construct:pycall:{type(e).__name__}", case, "literals evaluate, arguments can be stored",
                         f"{type(e).__name__}: {e}", "the program's operands could not even be prepared")
@@ -727,7 +765,24 @@ NAMES = ["f", "g", "h"]
 DATA_NAMES = ["f", "g", "h", "y", "v"]
 
 
-def kbody_text(arity, body):
+BODY_SHAPES = ["stmts", "thin", "thinconst", "nested"]
+
+
+def body_shapes_for(arity, body):
+    """the shapes of Klong function body available for this arity (all record [body, args...] and return body)"""
+    if body >= 900:
+        return ["stmts"]
+    return ["stmts", "thin"] + (["thinconst"] if arity <= 2 else []) + (["nested"] if 1 <= arity <= 2 else [])
+
+
+def kbody_text(arity, body, shape="stmts"):
+    ps = list("xyz"[:arity])
+    if shape == "thin":            # ONE call of a named callable with the parameters as arguments: area::{mul(x;y)}
+        return "{t%d(%s)}" % (body, ";".join(ps))
+    if shape == "thinconst":       # ... with a constant among the arguments: dbl::{mul(2;x)}
+        return "{rk%d(%s)}" % (arity + 1, ";".join([str(body)] + ps))
+    if shape == "nested":          # the parameters occur only INSIDE nested calls: {foo(x+1)}
+        return "{rk%d(%s)}" % (arity + 1, ";".join([str(body)] + [f"idf({q})" for q in ps]))
     parts = [f"r({body})"] + [f"r({p})" for p in "xyz"[:arity]]
     if body >= 900:
         parts.append("kerr()")
@@ -754,7 +809,7 @@ def gen_history(rng, nops):
             body += 1
             b = body if rng.random() > 0.06 else 900 + body
             ar = rng.randrange(4)
-            ops.append(["defk", n, ar, b])
+            ops.append(["defk", n, ar, b, rng.choice(body_shapes_for(ar, b))])
             st[n] = ("k", ar, b)
         elif r < 0.26:
             n = rng.choice(DATA_NAMES)
@@ -842,7 +897,7 @@ def gen_scenario(rng, which):
     sig2 = list(rng.choice([s_ for s_ in SIGS if sig_arity(s_) == ar2 and list(s_) != sig1] or SIGS))
     args = lambda k: [_pick(rng, list(range(N_U))) for _ in range(k)]
     mode = lambda: rng.choice(["var", "lit"])
-    first = rng.choice([["defk", a, ar1, 21], ["setpy", a, sig1, rng.choice(CKINDS)], ["setdata", a, rng.randrange(N_U)]])
+    first = rng.choice([["defk", a, ar1, 21, rng.choice(body_shapes_for(ar1, 21))], ["setpy", a, sig1, rng.choice(CKINDS)], ["setdata", a, rng.randrange(N_U)]])
     if which == "twins":
         # successive stores to one name of values that are == in Python but different Klong values
         n = rng.choice(DATA_NAMES)
@@ -857,13 +912,13 @@ def gen_scenario(rng, which):
         ops = [first, ["get", a, 1]]
         if first[0] != "setdata" and rng.random() < 0.5:
             ops.append(["wcall", 1, args(ar1), mode()])
-        second = rng.choice([["setpy", a, sig2, rng.choice(CKINDS)], ["defk", a, ar2, 22]])
+        second = rng.choice([["setpy", a, sig2, rng.choice(CKINDS)], ["defk", a, ar2, 22, rng.choice(body_shapes_for(ar2, 22))]])
         ops += [second, ["get", a, 2], ["wcall", 2, args(ar2), mode()], ["kcall", a, args(ar2), mode()]]
         if first[0] != "setdata":
             ops.append(["wcall", 1, args(ar2 if second[0] == "defk" else ar1), mode()])
         return ops
     # alias: one function value under two names, the wrapper read through the LATER name
-    ops = [["defk", a, ar1, 31], ["alias", b, a]]
+    ops = [["defk", a, ar1, 31, rng.choice(body_shapes_for(ar1, 31))], ["alias", b, a]]
     if rng.random() < 0.3:
         c = [x for x in NAMES if x not in (a, b)][0]
         ops.append(["alias", c, b])
@@ -872,7 +927,7 @@ def gen_scenario(rng, which):
     victim = rng.choice([a, b])
     change = rng.choice(["defk", "defk", "del", "setpy", "setdata"])
     if change == "defk":
-        ops.append(["defk", victim, ar2, 32])
+        ops.append(["defk", victim, ar2, 32, rng.choice(body_shapes_for(ar2, 32))])
     elif change == "del":
         ops.append(["del", victim])
     elif change == "setpy":
@@ -884,7 +939,7 @@ def gen_scenario(rng, which):
     other = a if victim == b else b
     ops += [["kcall", other, args(ar1), mode()]]
     if rng.random() < 0.5:
-        ops += [["defk", other, ar2, 33], ["wcall", 1, args(ar2 if other == b else still), mode()]]
+        ops += [["defk", other, ar2, 33, rng.choice(body_shapes_for(ar2, 33))], ["wcall", 1, args(ar2 if other == b else still), mode()]]
     return ops
 
 
@@ -939,7 +994,10 @@ def _history_define(w, u, op, cid):
     klong = w.klong
     kind = op[0]
     if kind == "defk":
-        klong(f"{op[1]}::{kbody_text(op[2], op[3])}")
+        shape = op[4] if len(op) > 4 else "stmts"
+        if shape == "thin":
+            w.thin_recorder(op[2], op[3])
+        klong(f"{op[1]}::{kbody_text(op[2], op[3], shape)}")
     elif kind == "setdata":
         klong[op[1]] = u[op[2]][0]
     elif kind == "setpy":
@@ -985,7 +1043,8 @@ def run_history(ctx, drv, case):
                                 "defining a function / projection or assigning a value must not call anything")
                 return
         if kind == "defk":
-            _, n, ar, b = op
+            n, ar, b = op[1], op[2], op[3]
+            ctx.bump("body:" + (op[4] if len(op) > 4 else "stmts"))
             st[n] = ("k", ar, b)
             if drv:
                 model, impl = drv.ask(f"defk name={n} arity={ar} body={b}"), "ok"
@@ -1166,6 +1225,83 @@ def run_history(ctx, drv, case):
     ctx.count(("history", json.dumps(ops)), nontrivial=len(ops) >= 3)
 
 
+# --------------------------------------------------------------------------- part 3b: plain bodies through the wrapper
+
+# (body, kinds of its arguments: n = number, l = integer list); mul / neg / idf are stored Python callables
+PLAIN_BODIES = [
+    ("{#x}", "l"), ("{-x}", "n"), ("{*x}", "l"), ("{#,x}", "n"), ("{(#x)+y}", "ln"), ("{+/x}", "l"),
+    ("{x+/y}", "nl"), ("{idf(x+1)}", "n"), ("{mul(x;mul(y;z))}", "nnn"), ("{mul(2;x)}", "n"), ("{mul(x;y)}", "nn"),
+    ("{neg(x)}", "n"), ("{:[x;y;z]}", "nnn"), ("{x,y}", "ll"), ("{(x*x)+y-z}", "nnn"), ("{{x+1}'x}", "l"),
+    ("{x{x+y}'y}", "ll"), ("{[a];a::x;a+y}", "nn"), ("{5{(,x),y}/[1]}", ""), ("{x+y}", "nn"), ("{x}", "n"),
+    ("{neg'x}", "l"), ("{mul(x;)'y}", "nl"), ("{x+#y}", "nl"), ("{(-x),-y}", "nn"), ("{mul(-x;#y)}", "nl"),
+]
+
+
+def gen_plainfn(rng, j):
+    body, kinds = PLAIN_BODIES[j]
+    val = lambda k: rng.choice([0, 1, -3, 7, 100]) if k == "n" else [rng.randrange(-5, 9) for _ in range(rng.choice([1, 2, 3, 3, 4]))]
+    case = dict(kind="plainfn", body=body, args=[val(k) for k in kinds])
+    if rng.random() < 0.5:
+        # the wrapper is taken while the name holds another function, then the name is redefined to `body`
+        b0, k0 = PLAIN_BODIES[rng.randrange(len(PLAIN_BODIES))]
+        case["before"] = b0
+        case["before_args"] = [val(k) for k in k0]
+    return case
+
+
+def _plain_lit(v):
+    return "[" + " ".join(str(x) for x in v) + "]" if isinstance(v, list) else str(v)
+
+
+def run_plainfn(ctx, drv, case):
+    """klong['g'](*args) vs klong('g(a;b;c)') for ordinary function bodies; wrong counts are rejected"""
+    from klongpy import KlongInterpreter
+    klong = KlongInterpreter()
+    klong["mul"] = lambda x, y: x * y
+    klong["neg"] = lambda x: -x
+    klong["idf"] = lambda x: x
+
+    def both(args, what):
+        txt = ";".join(_plain_lit(a) for a in args)
+        try:
+            exp = ["ok", canon(klong(f"g({txt})"))]
+        except Exception as e:
+            exp = ["raises", type(e).__name__]
+        try:
+            got = ["ok", canon(w(*[np.array(a) if isinstance(a, list) else a for a in args]))]
+        except Exception as e:
+            got = ["raises", type(e).__name__ + (":arity" if "Klong function called with" in str(e) else "")]
+        if got != exp:
+            ctx.oracle_fail("wrapper:eq-klong-call:plain-body", dict(case, step=what), f"g({txt}) -> {exp}", got,
+                            "klong[name](*args) must return what the Klong call name(a;b;c) returns")
+        for k in (len(args) - 1, len(args) + 1):
+            if 0 <= k <= 3:
+                bad = (list(args) + [1])[:k]
+                try:
+                    r = w(*[np.array(a) if isinstance(a, list) else a for a in bad])
+                    ctx.oracle_fail("wrapper:wrong-arity:plain-body", dict(case, step=what, bad_args=bad),
+                                    f"RuntimeError (takes {len(args)})", canon(r),
+                                    "klong[name](*args) must reject a wrong number of arguments")
+                except Exception as e:
+                    if not (isinstance(e, RuntimeError) and "Klong function called with" in str(e)):
+                        ctx.oracle_fail("wrapper:wrong-arity:plain-body", dict(case, step=what, bad_args=bad),
+                                        f"RuntimeError (takes {len(args)})", f"ran the body: {type(e).__name__}: {e}",
+                                        "klong[name](*args) must reject a wrong number of arguments before evaluating")
+
+    if case.get("before"):
+        klong(f"g::{case['before']}")
+        w = klong["g"]
+        both(case["before_args"], "before redefinition")
+        klong(f"g::{case['body']}")
+    else:
+        klong(f"g::{case['body']}")
+        w = klong["g"]
+    both(case["args"], "current definition")
+    ctx.count(("plainfn", case["body"], json.dumps(case["args"]), case.get("before")))
+    ctx.bump("plain-body")
+    return case
+
+
 # --------------------------------------------------------------------------- static tie
 
 def extract_constants(ctx):
@@ -1208,6 +1344,8 @@ def run_case(ctx, drv, case):
         _guarded(ctx, run_history, drv, case)
     elif case.get("kind") == "adverb":
         _guarded(ctx, run_adverb, drv, case)
+    elif case.get("kind") == "plainfn":
+        _guarded(ctx, run_plainfn, drv, case)
     else:
         raise common.Infra(f"unknown case kind: {case.get('kind')}")
 
@@ -1257,14 +1395,20 @@ def run(ctx):
         pool = ["a", "b", "c", "p", "q", "value", "y", "z"]
         for ar in range(4):
             for withk in (False, True):
-                for where in ("top", "nested", "ref"):
-                    for _ in range(1 if quick else 6):
-                        names = ctx.rng.sample(pool, ar)
-                        sig = (("klong",) if withk else ()) + tuple("xyz"[:ar])
-                        c = gen_pycall(ctx.rng, sig, "direct", where)
-                        c["imported"] = (["klong"] if withk else []) + names
-                        _guarded(ctx, run_pycall, drv, c)
-                        ctx.bump("imported")
+                for where in ("top", "nested", "ref", "asarg", "asarg"):
+                    for form in FORMS[ar]:
+                        for _ in range(1 if quick else 5):
+                            names = ctx.rng.sample(pool, ar)
+                            sig = (("klong",) if withk else ()) + tuple("xyz"[:ar])
+                            c = gen_pycall(ctx.rng, sig, form, where)
+                            c["imported"] = (["klong"] if withk else []) + names
+                            c["decoys"] = []
+                            _guarded(ctx, run_pycall, drv, c)
+                            ctx.bump("imported")
+        # plain Klong bodies (operators, adverbs, nested calls, conditionals) through the Python wrapper
+        for _ in range(4 if quick else 60):
+            for j in range(len(PLAIN_BODIES)):
+                _guarded(ctx, run_plainfn, drv, gen_plainfn(ctx.rng, j))
         for which in ("overwrite", "alias", "twins"):
             for h in range(120 if quick else 1500):
                 case = dict(kind="history", ops=gen_scenario(ctx.rng, which))
@@ -1286,7 +1430,7 @@ def replay(ctx, case):
     drv = Driver("c09") if getattr(ctx, "driver_ok", True) else None
     c = case.get("case", case)
     try:
-        if c.get("kind") in ("pycall", "history", "adverb"):
+        if c.get("kind") in ("pycall", "history", "adverb", "plainfn"):
             run_case(ctx, drv, c)
         else:
             run(ctx)
